@@ -257,10 +257,8 @@ def options_stream(run, drv, ask):
             oks, iks = canon_keys(mod.out_keys), canon_keys(mod.in_keys)
             present = set(before) | {k[:j] if j > 1 else k[0] for k in before if isinstance(k, tuple) for j in range(1, len(k))}
             if all(k in present for k in oks) and not any(k in oks for k in iks):
-                wr = all_written(node)
-                # (an unselected out_key that was already in the input is still dropped by the select_out_keys hook, which runs
-                #  on the returned input even though the forward was skipped: inside the module's own out_keys, not flagged)
-                changed = [k for k, v in before.items() if k not in wr and td.get(k, None) is not v] + [k for k in td.keys(True, True) if k not in before]
+                # (also the entries under the module's own out_keys: a select_out_keys hook must not touch what a skipped module hands back)
+                changed = [k for k, v in before.items() if td.get(k, None) is not v] + [k for k in td.keys(True, True) if k not in before]
                 if r is not td or changed:
                     run.oracle_fail("skip_existing", [nsx, str(arg), str(out)], f"all out_keys exist, yet the module ran (returned input: {r is td}, changed {changed})", "skip_existing")
                 else:
@@ -286,6 +284,14 @@ def options_stream(run, drv, ask):
             run.oracle_fail("frame_options", [nsx, str(arg), str(out)], f"input entries that no module writes were removed/replaced: {lost}", "frame_options")
         else:
             run.oracle_ok("frame_options")
+        # oracle: a sequence with inplace=False / "empty" (and a module with inplace=False / "empty") leaves its input as it is
+        if node[2] in ("no", "empty") and otd is None and not (skip and r is td):
+            diff_in = [k for k, v in before.items() if td.get(k, None) is not v] + [k for k in td.keys(True, True) if k not in before]
+            if diff_in or r is td:
+                run.oracle_fail("inplace_false", [nsx, str(arg), str(out)], f"inplace={node[2]}: the input tensordict was modified ({diff_in[:6]}) / returned: {r is td}",
+                                "inplace_false:input-modified" if diff_in else "inplace_false:returned-input")
+            else:
+                run.oracle_ok("inplace_false")
         # oracle: a sequence with selected out-keys adds no unselected out-key to what it returns
         if node[0] == "seq" and node[3] is not None:
             sel_top = set(canon_keys(node[3]))
